@@ -292,6 +292,52 @@ def probeArgsL : List Q → List Q
   | q :: qs => probeArgs q ++ probeArgsL qs
 end
 
+mutual
+def freeVars (bound : List String) : Q → List String
+  | .var x => if x ∈ bound then [] else [x]
+  | .lit _ => []
+  | .lam ps b => freeVars (ps ++ bound) b
+  | .app f as => freeVars bound f ++ freeVarsL bound as
+  | .node _ ks => freeVarsL bound ks
+def freeVarsL (bound : List String) : List Q → List String
+  | [] => []
+  | q :: qs => freeVars bound q ++ freeVarsL bound qs
+end
+
+/-- the lambda parameters in scope at a position -/
+def bindersAlong : List Step → Q → List String
+  | .body :: p, .lam ps b => ps ++ bindersAlong p b
+  | .fn :: p, .app f _ => bindersAlong p f
+  | .arg i :: p, .app _ as => match as[i]? with
+    | some a => bindersAlong p a
+    | none => []
+  | .kid i :: p, .node _ ks => match ks[i]? with
+    | some a => bindersAlong p a
+    | none => []
+  | _, _ => []
+
+def subtermAt : List Step → Q → Option Q
+  | [], q => some q
+  | .body :: p, .lam _ b => subtermAt p b
+  | .fn :: p, .app f _ => subtermAt p f
+  | .arg i :: p, .app _ as => match as[i]? with
+    | some a => subtermAt p a
+    | none => none
+  | .kid i :: p, .node _ ks => match ks[i]? with
+    | some a => subtermAt p a
+    | none => none
+  | _, _ => none
+
+/-- the two lambdas of a fusing site mention no parameter of an enclosing lambda (func_adl deep-copies the two
+lambdas when it fuses them itself: a stream bound to an outer parameter that they mention is then no longer the same
+object as its other uses, and the translator evaluates it once more) -/
+def siteLambdasClosedB (q : Q) (p : List Step) : Bool :=
+  match subtermAt p q with
+  | some (.app (.var _) [.app (.var _) [_, f], g]) =>
+    let bs := bindersAlong p q
+    (freeVars [] f ++ freeVars [] g).all (fun x => x ∉ bs)
+  | _ => false
+
 /-- the stream under a fusing site `Op(Op(s, f), g)` -/
 def siteSource : Q → Option Q
   | .app (.var _) [.app (.var _) [s, _], _] => some (Q.call "!probe" [s])
@@ -306,6 +352,7 @@ def fuseSiteOkB (fuel : Nat) (q : Q) (p : List Step) : Bool :=
   | some probed =>
     let r := (simp fuel [] 0 (aggNorm probed)).1
     let heads := probeArgs r
+    siteLambdasClosedB q p &&
     !heads.isEmpty && heads.all (fun h => !(h.isCallOf "Select" || h.isCallOf "SelectMany" || h.isCallOf "Where"))
   | none => false
 
